@@ -114,6 +114,7 @@ class Frame(ABC):
         """Compare if this frame is equal to other."""
         if isinstance(other, Frame):
             return (
+                type(self),
                 self.recipient,
                 self.sender,
                 self.econet_type,
@@ -121,12 +122,13 @@ class Frame(ABC):
                 self._message,
                 self._data,
             ) == (
-                self.recipient,
-                self.sender,
-                self.econet_type,
-                self.econet_version,
-                self._message,
-                self._data,
+                type(other),
+                other.recipient,
+                other.sender,
+                other.econet_type,
+                other.econet_version,
+                other._message,
+                other._data,
             )
 
         return NotImplemented
